@@ -565,7 +565,7 @@ const W_TWINS: &[(K, u64)] = &[
 ];
 
 const W_SETS: &[(K, u64)] = &[
-    (K::RootBurst, 2),
+    (K::RootBurst, 5),
     (K::Root, 8),
     (K::Child, 10),
     (K::Finish, 12),
@@ -791,7 +791,7 @@ pub fn profile(prop: &str) -> Profile {
             // parents whose trace start was lost to a full queue receive their copies as stale spans
             ring_caps: &[(0, 4), (2, 4), (3, 1), (4, 2), (8, 1)],
             late_reporter_pct: 12,
-            many_traces_pct: 15,
+            many_traces_pct: 30,
             atomic_pct: 50,
             wallstep_pct: 50,
             props_pct: 40,
@@ -1070,7 +1070,9 @@ impl<'a> Gen<'a> {
                     return false;
                 }
                 let k = (3 + self.rng.below(22) as usize).min(avail);
-                let keep_last = self.rng.pct(30);
+                // (sometimes the last two stay open: with a small ring their trace starts were lost,
+                // and whatever is pushed to them later travels as stale spans)
+                let keep_tail = if self.rng.pct(45) { 1 + self.rng.below(2) as usize } else { 0 };
                 for j in 0..k {
                     let tr = self.next_trace as u8;
                     self.next_trace += 1;
@@ -1078,7 +1080,7 @@ impl<'a> Gen<'a> {
                     if !self.push(t, Op::Root { slot, trace: tr, props: 0 }) {
                         return false;
                     }
-                    if !(keep_last && j + 1 == k) {
+                    if j + keep_tail < k {
                         self.push(t, Op::Finish { slot, unwind: false });
                     }
                 }
